@@ -389,6 +389,9 @@ def emit_fn(out, item, relfile, container, contracts, in_trait_decl=False, inden
             sig = name_return(sig, contract.ret, [], qual)
         except LostAnchor:
             pass
+        # the body is not looked at any more: a `mut self` binding mode (rejected by Verus even on external_body
+        # functions) is dropped from the signature
+        sig = re.sub(r'\bmut self\b', 'self', sig)
         out.unreachable[qual] = fallback_reason
         out.log.append({'rule': 'FALLBACK', 'fn': qual, 'what': 'external_body, contract assumed for callers: ' + fallback_reason})
         body = ' unimplemented!() ' if body is not None else None
